@@ -23,6 +23,9 @@ pub(in crate::sql) fn preprocess(
     pipeline: Vec<Transform>,
     ctx: &mut Context,
 ) -> Result<Vec<SqlTransform>> {
+    #[cfg(prql_verif)]
+    let verif_input = pipeline.clone();
+
     Ok(pipeline)
         .and_then(normalize)
         .and_then(|p| wrap(p, ctx))
@@ -34,6 +37,10 @@ pub(in crate::sql) fn preprocess(
         .map(reorder)
         .map(|p| {
             debug::log_entry(|| debug::DebugEntryKind::ReprPqEarly(p.clone()));
+            #[cfg(prql_verif)]
+            debug::verif::emit("preprocess", || {
+                serde_json::json!({"input": verif_input, "output": p}).to_string()
+            });
             p
         })
 }
